@@ -131,6 +131,22 @@ func (r *Report) Except(rule, fn, construct, pos, reason string) {
 }
 
 // Count returns the number of instances of a rule so far.
+// FailingRules: rules with at least one violation or undecided obligation so far (before known-finding matching).
+func (r *Report) FailingRules() []string {
+	set := map[string]bool{}
+	for _, o := range r.obls {
+		if o.Verdict == Violation || o.Verdict == Undecided {
+			set[o.Rule] = true
+		}
+	}
+	var out []string
+	for k := range set {
+		out = append(out, k)
+	}
+	sort.Strings(out)
+	return out
+}
+
 func (r *Report) Count(rule string) int {
 	if ri := r.rules[rule]; ri != nil {
 		return ri.Count
